@@ -30,6 +30,9 @@ enum Action {
     Silent,
     /// chronyd answers with something that is not tracking data.
     WrongReply,
+    /// chronyd answers, but only this many real milliseconds after the request reached it: the
+    /// client has retransmitted by then, and chronyd answers the retransmission as well.
+    SlowAnswer(u32),
 }
 
 struct Shared {
@@ -42,6 +45,8 @@ struct Shared {
     rt_steps: Mutex<Vec<i64>>,
     /// Per step: what the PHC error-bound file holds (None: the file is absent), when PHC is configured.
     phc_plan: Mutex<Vec<Option<i64>>>,
+    /// Per step: (errno, how many reads) the reads of the PHC error-bound file fail with.
+    phc_read_failures: Mutex<Vec<(i32, u32)>>,
     socket: Mutex<Option<UnixDatagram>>,
     mode: Mutex<Action>,
     stop: AtomicBool,
@@ -84,8 +89,13 @@ fn server(sh: Arc<Shared>) {
                 // the reply is tagged with the step it answers (stratum field)
                 let tag = ((sh.step.load(Ordering::SeqCst) as u32).wrapping_sub(1) & 0xffff) as u16;
                 let r = Report { ref_id: PHC_REFID, leap: 0, ref_time_ns: T0_REAL_S as i128 * NS, correction_bits: float_bits(1 << 12, 0), delay_bits: float_bits(1 << 12, 0), dispersion_bits: float_bits(1 << 12, 0), interval_bits: bits_of_f64(16.0) };
+                if let Action::SlowAnswer(ms) = mode {
+                    if sh.requests_this_step.load(Ordering::SeqCst) == 1 {
+                        std::thread::sleep(Duration::from_millis(ms as u64));
+                    }
+                }
                 match mode {
-                    Action::Answer => {
+                    Action::Answer | Action::SlowAnswer(_) => {
                         if let Some(p) = addr.as_pathname() {
                             let mut b = reply_bytes(&r, seq);
                             b[52..54].copy_from_slice(&tag.to_be_bytes());
@@ -120,7 +130,7 @@ fn kind_of(m: &Message) -> &'static str {
     }
 }
 
-fn gen_script(rng: &mut Rng, with_silent: bool) -> (i64, Vec<(i64, Action, i64)>) {
+fn gen_script(rng: &mut Rng, with_silent: bool, with_slow: bool) -> (i64, Vec<(i64, Action, i64)>) {
     let t_start: i64 = *rng.pick(&[3i64, 100, 5000]) * NS as i64 + rng.range(0, 999_999_999);
     let mut t = t_start;
     let mut last_good: Option<i64> = None;
@@ -153,6 +163,15 @@ fn gen_script(rng: &mut Rng, with_silent: bool) -> (i64, Vec<(i64, Action, i64)>
         out.push((t, act, lat));
         t += lat;
     }
+    if with_slow {
+        // one late answer somewhere, followed by at least one ordinary poll
+        let at = rng.below(out.len() as u64 - 1) as usize;
+        out[at].1 = Action::SlowAnswer(*rng.pick(&[1200u32, 1500, 1900, 2300, 2700]));
+        out[at + 1].1 = Action::Answer;
+        if at + 2 < out.len() && rng.chance(1, 2) {
+            out[at + 2].1 = Action::Answer;
+        }
+    }
     (t_start, out)
 }
 
@@ -161,7 +180,8 @@ pub fn run(a: &Args) -> Value {
         return json!({"inconclusive": "not inside the private /run namespace (marker /var/run/chrony/.verif-private missing)", "evaluations": 0, "violations": []});
     }
     let with_silent = a.map.get("silent").map(|s| s == "1").unwrap_or(false);
-    let sh = Arc::new(Shared { mono_ns: AtomicI64::new(0), latency_ns: AtomicI64::new(0), real_offset_ns: AtomicI64::new(0), rt_steps: Mutex::new(Vec::new()), phc_plan: Mutex::new(Vec::new()), step: AtomicUsize::new(0), script: Mutex::new(Vec::new()), socket: Mutex::new(None), mode: Mutex::new(Action::Answer), stop: AtomicBool::new(false), coarse_reads: AtomicUsize::new(0), requests_this_step: AtomicUsize::new(0) });
+    let with_slow = a.map.get("slow").map(|s| s == "1").unwrap_or(false);
+    let sh = Arc::new(Shared { mono_ns: AtomicI64::new(0), latency_ns: AtomicI64::new(0), real_offset_ns: AtomicI64::new(0), rt_steps: Mutex::new(Vec::new()), phc_plan: Mutex::new(Vec::new()), phc_read_failures: Mutex::new(Vec::new()), step: AtomicUsize::new(0), script: Mutex::new(Vec::new()), socket: Mutex::new(None), mode: Mutex::new(Action::Answer), stop: AtomicBool::new(false), coarse_reads: AtomicUsize::new(0), requests_this_step: AtomicUsize::new(0) });
     // Virtual clock: every CLOCK_MONOTONIC_COARSE read of a virtual thread starts the next step.
     {
         let sh = sh.clone();
@@ -191,6 +211,9 @@ pub fn run(a: &Args) -> Value {
                             }
                         }
                     }
+                    // (this closure runs on the poller's own thread: the failures are armed for it)
+                    let (fe, fn_) = sh.phc_read_failures.lock().unwrap().get(k).cloned().unwrap_or((0, 0));
+                    vworld::meter::fail_reads_of(PHC_FILE, fe, fn_);
                     *sh.mode.lock().unwrap() = act;
                     match act {
                         Action::Vanish => {
@@ -225,7 +248,7 @@ pub fn run(a: &Args) -> Value {
     let mut k = a.shard;
     while k < a.count {
         k += a.nshards;
-        let (t_start, script) = gen_script(&mut rng, with_silent);
+        let (t_start, script) = gen_script(&mut rng, with_silent, with_slow);
         distinct.insert(format!("{:?}", script));
         *sh.script.lock().unwrap() = script.clone();
         // The wall clock is stepped now and then (chronyd makestep, VM resume): the grace period is
@@ -235,6 +258,12 @@ pub fn run(a: &Args) -> Value {
         let with_phc = rng.chance(1, 2);
         let phc_plan: Vec<Option<i64>> = if with_phc { (0..script.len()).map(|_| if rng.chance(1, 8) { None } else { Some(*rng.pick(&[0i64, 1, 250, 12345, 31_000, 3_000_000])) }).collect() } else { Vec::new() };
         *sh.phc_plan.lock().unwrap() = phc_plan.clone();
+        // Reads of the file failing: once or twice (an implementation may retry), or throughout the poll.
+        let read_failures: Vec<(i32, u32)> = (0..script.len()).map(|_| if with_phc && rng.chance(1, 5) {
+            let times = *rng.pick(&[1u32, 2, 1000, 1000]);
+            (if times >= 1000 { *rng.pick(&[libc::EAGAIN, libc::EBUSY, libc::ENOMEM, libc::EIO, libc::EACCES, libc::ENODEV]) } else { *rng.pick(&[libc::EINTR, libc::EAGAIN, libc::EBUSY, libc::EIO]) }, times)
+        } else { (0, 0) }).collect();
+        *sh.phc_read_failures.lock().unwrap() = read_failures.clone();
         let _ = std::fs::remove_file(PHC_FILE);
         sh.step.store(0, Ordering::SeqCst);
         sh.mono_ns.store(t_start, Ordering::SeqCst);
@@ -255,7 +284,7 @@ pub fn run(a: &Args) -> Value {
             run_poller_real(ctx, phc, Duration::from_millis(1));
         });
         // Watchdog in real time: 5 s per silent step, 2 s otherwise.
-        let budget = script.iter().map(|(_, a, _)| if *a == Action::Silent { 5 } else { 2 }).sum::<u64>() + 5;
+        let budget = script.iter().map(|(_, a, _)| if *a == Action::Silent { 5 } else if matches!(a, Action::SlowAnswer(_)) { 6 } else { 2 }).sum::<u64>() + 5;
         let (tx, rx) = std::sync::mpsc::channel();
         std::thread::spawn(move || {
             let _ = h.join();
@@ -278,14 +307,28 @@ pub fn run(a: &Args) -> Value {
             // The grace period is judged when the query is over, i.e. `lat` after the step began.
             let t_end = *t + *lat;
             let phc_now: Option<Option<i64>> = phc_plan.get(i).cloned();
-            let expected = match act {
+            let answered = matches!(act, Action::Answer | Action::SlowAnswer(_));
+            let (fail_errno, fail_times) = read_failures.get(i).cloned().unwrap_or((0, 0));
+            let file_there = matches!(phc_now, Some(Some(_)));
+            let mut expected = match act {
                 // the PHC is the reference of every answer: unreadable file -> not a measurement (an
                 // answer was just received, so within the grace period)
-                Action::Answer => if let Some(None) = phc_now { "PhcErrorBoundRetrievalFailedGracePeriod" } else { "ClockErrorBoundData" },
+                Action::Answer | Action::SlowAnswer(_) => if let Some(None) = phc_now { "PhcErrorBoundRetrievalFailedGracePeriod" } else { "ClockErrorBoundData" },
                 _ => if t_end - last_good < 5 * NS as i64 { "ChronyNotRespondingGracePeriod" } else { "ChronyNotResponding" },
             };
+            if answered && file_there && fail_times > 0 {
+                *kinds.entry(format!("phc-read-fails-errno{}-x{}", fail_errno, fail_times)).or_insert(0) += 1;
+                if fail_times >= 1000 {
+                    // no read of this poll succeeded: there is no PHC bound to publish
+                    expected = "PhcErrorBoundRetrievalFailedGracePeriod";
+                } else if got == "PhcErrorBoundRetrievalFailedGracePeriod" {
+                    // a transient failure: giving up at once or retrying are both fine; a
+                    // measurement, if sent, is checked below like any other
+                    expected = got;
+                }
+            }
             *kinds.entry(format!("{:?}->{}", act, got)).or_insert(0) += 1;
-            if *act != Action::Answer {
+            if !answered {
                 let d = t_end - last_good - 5 * NS as i64;
                 let edge = if i == 0 && last_good == t_start - 5 * NS as i64 { "start-up" } else if d == -1 { "5s-1ns" } else if d == 0 { "5s" } else if d == 1 { "5s+1ns" } else if d < 0 { "inside" } else { "beyond" };
                 *edges.entry(edge.to_string()).or_insert(0) += 1;
@@ -304,7 +347,7 @@ pub fn run(a: &Args) -> Value {
                     violation(&mut violations, a, "C12", "report-not-from-this-poll", format!("step {} (as_of {} ns): the measurement message carries chronyd's reply to the request of step {} — its as_of was not read before the request that produced the report", i, as_of_ns, tr.stratum), json!({"script": format!("{:?}", script)}));
                 }
             }
-            if *act == Action::Answer {
+            if answered {
                 last_good = t_end;
             }
         }
@@ -315,7 +358,7 @@ pub fn run(a: &Args) -> Value {
     sh.stop.store(true, Ordering::SeqCst);
     let _ = srv.join();
     clock::uninstall();
-    let mut v = json!({"evaluations": evaluations, "distinct": distinct.len(), "steps": steps, "kinds": kinds, "threshold_edges": edges, "coarse_reads": sh.coarse_reads.load(Ordering::SeqCst), "violations": violations, "samples": samples});
+    let mut v = json!({"phc_read_failures_injected": vworld::meter::READ_FAILURES_INJECTED.load(Ordering::Relaxed), "evaluations": evaluations, "distinct": distinct.len(), "steps": steps, "kinds": kinds, "threshold_edges": edges, "coarse_reads": sh.coarse_reads.load(Ordering::SeqCst), "violations": violations, "samples": samples});
     if let Some(e) = inconclusive {
         v["inconclusive"] = json!(e);
     }
